@@ -83,6 +83,16 @@ claim('C06', 'DESIGN.md 4/C06',
       'Two concrete solved systems (rank 2, 3; 256-point dyadic grid); tolerances 1e-9 (arrays) / 1e-8 (returns); post-call flags not '
       'prescribed; trusted: TLC, NondetWalker, deepcopy-as-fresh-object, the object\'s own Domain for moving references between spaces.')
 
+claim('C05', 'DESIGN.md 4/C05',
+      'TLA+ spec Calculate.tla: the seven calculate functions as definitions in exact rational arithmetic on hand-populated, '
+      'deliberately non-self-consistent instances (rank 2-4); TLC evaluates them and checks SymmetricOutputs, '
+      'SpinodalIsBlockDeterminant, ExtrapolationIsQuadratic, ChiEqualVolumes; every exported evaluation replayed on a real PRISM object '
+      'populated with the same numbers for all initial-space combinations of the stored arrays; S = (I - Omega C)^-1 Omega on solved objects',
+      'Each definition is stated once, in TLA+, from the property text; TLC computes the expected value of every function x flag x pair '
+      '(incl. the later pairs of 3- and 4-component systems) exactly; the real functions must reproduce them to 1e-9.',
+      'Instances are seeded integer/rational arrays of 4 wavenumbers; chi for unequal volumes judged up to a positive prefactor; '
+      'PY solvation judged where 1 + CSC > 0; logarithm and back-transform applied by the harness (numpy, reference dense matrices).')
+
 ALL = ['C%02d' % i for i in range(1, 19)]
 
 
